@@ -39,34 +39,36 @@ type refWrite struct {
 }
 
 type sysOpts struct {
-	Managed    bool
-	Detect     bool
-	NKeep      int
-	MaxLevels  int
-	InMemory   bool
-	VThreshold int64
-	EncKey     []byte
-	TableSize  int64
+	Managed       bool
+	Detect        bool
+	NKeep         int
+	MaxLevels     int
+	InMemory      bool
+	VThreshold    int64
+	EncKey        []byte
+	TableSize     int64
+	BaseLevelSize int64
 }
 
 type hist struct {
-	c      *Ctx
-	o      sysOpts
-	dir    string
-	db     *badger.DB
-	ops    []string
-	desc   []string // human-readable op log (for replay files)
-	txns   map[int]*badger.Txn
-	tupd   map[int]bool
-	ref    []refWrite // applied writes in call order (the specification's history)
-	tpend  map[int][]refWrite
-	next0  uint64
-	mu     sync.Mutex
-	cinfo  *badger.VerifCompactInfo
-	cdisc  uint64
-	cgot   bool
+	c                *Ctx
+	o                sysOpts
+	dir              string
+	db               *badger.DB
+	ops              []string
+	desc             []string // human-readable op log (for replay files)
+	txns             map[int]*badger.Txn
+	tupd             map[int]bool
+	ref              []refWrite // applied writes in call order (the specification's history)
+	tpend            map[int][]refWrite
+	next0            uint64
+	mu               sync.Mutex
+	cinfo            *badger.VerifCompactInfo
+	cdisc            uint64
+	cgot             bool
 	nCompact, nFlush int
-	failed bool
+	failed           bool
+	backdate         func(id uint64) bool // scenario override for the L0->L0 age filter
 }
 
 func entTerm(k []byte, ver uint64, meta, umeta byte, exp uint64, v []byte) string {
@@ -91,8 +93,8 @@ func openSysDB(dir string, o sysOpts) (*badger.DB, error) {
 	opt = opt.WithLoggingLevel(badger.ERROR).WithNumCompactors(0).WithNumLevelZeroTables(1000).
 		WithNumLevelZeroTablesStall(2000).WithMemTableSize(1 << 20).WithValueLogFileSize(1 << 20).
 		WithNumVersionsToKeep(o.NKeep).WithDetectConflicts(o.Detect).WithMaxLevels(o.MaxLevels).
-		WithBaseTableSize(o.TableSize).WithBaseLevelSize(8 << 10).WithLevelSizeMultiplier(2).
-		WithNumMemtables(8).WithBlockSize(512).WithMetricsEnabled(false).WithCompactL0OnClose(false)
+		WithBaseTableSize(o.TableSize).WithBaseLevelSize(o.BaseLevelSize).WithLevelSizeMultiplier(2).
+		WithNumMemtables(8).WithBlockSize(64).WithMetricsEnabled(false).WithCompactL0OnClose(false)
 	if !o.InMemory {
 		opt = opt.WithValueThreshold(o.VThreshold)
 	}
@@ -559,7 +561,15 @@ func (h *hist) compact(level int, l0l0 bool, drop [][]byte) (bool, error) {
 	h.cdisc = 0
 	h.mu.Unlock()
 	if l0l0 {
-		h.db.VerifBackdateTables(time.Hour)
+		// a random subset of the tables is old enough for the L0->L0 picker (tables created
+		// less than 10 s ago are left out by the production code)
+		if h.backdate != nil {
+			h.db.VerifBackdateTables(time.Hour, h.backdate)
+		} else {
+			salt := h.c.Rng.Uint64()
+			all := h.c.Rng.Intn(3) == 0
+			h.db.VerifBackdateTables(time.Hour, func(id uint64) bool { return all || (id*2654435761+salt)%5 != 0 })
+		}
 	}
 	now := time.Now().Unix()
 	err := h.db.VerifCompact(level, l0l0, drop)
@@ -613,6 +623,7 @@ func (h *hist) compact(level int, l0l0 bool, drop [][]byte) (bool, error) {
 		dp[i] = B(p)
 	}
 	h.nCompact++
+	h.c.Count(fmt.Sprintf("compact L%d->L%d base=%d", info.ThisLevel, info.NextLevel, h.db.VerifBaseLevel()))
 	h.emit(fmt.Sprintf("(Compact (mkC %d %d %s %s %d %d %s %d %s %s) %s)", info.ThisLevel, info.NextLevel, idList(info.Top), idList(info.Bot),
 		disc, h.o.NKeep, ListOf(dp), now, ListOf(layout), idList(order), ListOf(out)),
 		fmt.Sprintf("compact L%d->L%d top=%v bot=%v discard=%d new=%v", info.ThisLevel, info.NextLevel, info.Top, info.Bot, disc, info.New))
